@@ -310,6 +310,38 @@ var templates = map[string]func(n, m int) string{
 		b.WriteString("\n")
 		return b.String()
 	},
+	// generic for with n loop variables and a body that needs no register above them (m selects the body)
+	"genfor_vars": func(n, m int) string {
+		var vs []string
+		for i := 1; i <= n; i++ {
+			vs = append(vs, fmt.Sprintf("v%d", i))
+		}
+		body := []string{"last = " + vs[n-1], "", "last = v1", "count = count + 1", "if " + vs[n-1] + " then break end", "last = {" + strings.Join(vs, ", ") + "}"}[m%6]
+		return "local last, count = nil, 0\nlocal function it(s, c) if c < 2 then return c + 1, " + strings.Join(vs, ", ") + " end end\nfor " + strings.Join(vs, ", ") + " in it, nil, 0 do\n" + body + "\nend\nreturn last, count\n"
+	},
+	// functions that use no register beyond their n parameters (m selects what they do with them), called in every way
+	"bare_functions": func(n, m int) string {
+		var ps []string
+		for i := 1; i <= n; i++ {
+			ps = append(ps, fmt.Sprintf("p%d", i))
+		}
+		plist := strings.Join(ps, ", ")
+		last := "nil"
+		if n > 0 {
+			last = ps[n-1]
+		}
+		body := []string{"return " + last, "return " + plist, "", "return", "if " + last + " then return " + last + " end", "return " + last + ", " + last,
+			"g = " + last, "return (" + last + ")", "return not " + last, "return -" + last, "return #" + last, "return " + last + " == " + last}[m%12]
+		if n == 0 {
+			body = []string{"return", "", "return nil"}[m%3]
+		}
+		var b strings.Builder
+		fmt.Fprintf(&b, "local function f(%s) %s end\n", plist, body)
+		fmt.Fprintf(&b, "local function v(%s%s...) %s end\n", plist, map[bool]string{true: "", false: ", "}[n == 0], body)
+		b.WriteString("local function t1(...) return f(...) end\nlocal function t2(a, b) return f(a, b) end\nlocal function t3(a, b, c) local x = a return v(x, b, c, a) end\n")
+		b.WriteString("return f(1, 2, 3), t1(1, 2), t2(1, 2), t3(1, 2, 3), {f(1, 2)}, (f(1, 2)), pcall(f, 1, 2), v(1), select('#', v(1, 2, 3))\n")
+		return b.String()
+	},
 	// m%3+1 enclosing levels with n locals each; the innermost function refers to every one of them (n*(m%3+1) upvalues)
 	"upvalues": func(n, m int) string {
 		var b strings.Builder
@@ -348,6 +380,8 @@ var grids = []grid{
 	{"nesting", []int{1, 2, 10, 50, 100, 150, 190, 195, 199, 200, 201, 220}, []int{0, 1, 2, 3}, false},
 	{"long_body", []int{1, 10, 1000, 131060, 131066, 131067, 131068, 131069, 131070, 131071, 131072, 131073, 131074, 131075, 131080, 140000, 262150}, []int{0, 1, 2, 3, 4, 5}, true},
 	{"chains", []int{1, 2, 50, 100, 199, 200, 201, 255, 256, 300, 1000}, []int{0, 1, 2, 3}, false},
+	{"genfor_vars", []int{1, 2, 3, 4, 5, 6, 7, 10, 50, 150, 190, 196}, []int{0, 1, 2, 3, 4, 5}, false},
+	{"bare_functions", []int{0, 1, 2, 3, 4, 5, 10, 100, 199, 200}, []int{0, 1, 2, 3, 4, 5, 6, 7, 8, 9, 10, 11}, false},
 	{"upvalues", []int{1, 30, 59, 60, 61, 84, 85, 86, 100, 127, 128, 129, 150, 190}, []int{0, 1, 2}, false},
 }
 
